@@ -124,7 +124,9 @@ def check(P, rep):
     gateway_binding(P, rep, 'C04.R1')
     # "well-formed hub message": the codec clauses this statement relies on (strict decoding, tag/struct dispatch, field mapping, amount
     # range check, no-panic inventory) are evaluated as part of this property
-    include_rules(P, rep, 'C04.R6', 'c10', lambda o: o['rule'] in ('C10.R1', 'C10.R2', 'C10.R3', 'C10.R5', 'C10.R6', 'C10.R7', 'FLOOR') and 'encode' not in (o.get('key') or o['what']),
+    include_rules(P, rep, 'C04.R6', 'c10', lambda o: o['rule'] in ('C10.R1', 'C10.R2', 'C10.R3', 'C10.R5', 'C10.R6', 'C10.R7', 'FLOOR') and 'encode' not in (o.get('key') or o['what'])
+                  # the WRAPPER-level dispatch is decided by C04.R2 itself (the early strict type check or the dispatch, whichever guards the arm)
+                  and not re.search(r'sol struct (ReceiveFromHub|SendToHub) is decoded only behind the dispatch edge', o['what']),
                   'delivered payloads are decoded strictly and only well-formed messages (amount < 2^127, supported types, exact lengths) are acted on', 30)
     storage_classes(P, rep, 'C04.R2', CN, {'TrustedChain': 'persistent', 'TokenIdConfigKey': 'persistent', 'Gateway': 'instance', 'ItsHubAddress': 'instance'})
     # "currently trusted origin chain": the trust set changes exactly as its two admin entries say and is_trusted_chain reports presence
